@@ -108,6 +108,14 @@ def closedCard (family : String) (p n : Nat) : Option Nat :=
 
 def handle (key : String) (ins obs : List String) : Verdict :=
   match key, ins, obs with
+  | k, (ns :: _), ("newpanic" :: _) =>
+    -- `BddVariableSet::new` panicked in the harness: legal names (distinct, no NOT_IN_VAR_NAME character) must be accepted
+    match parseNames ns with
+    | some vars =>
+      let legal := vars.all (fun nm => nm.all fun c => !Gen.notInVarName.contains c) && vars.eraseDups.length == vars.length
+      { agree := !legal, model := "variable set accepted", nontrivial := true, tags := ["newpanic", k],
+        fail := if legal then some "BddVariableSet::new-panicked-on-legal-names" else none }
+    | none => Verdict.bad "args"
   | "C15.eval", [ns, t], [r, r2] =>
     match parseNames ns, unsexp t with
     | some vars, some e =>
